@@ -357,6 +357,11 @@ func (e *Env) valueEq(a, b Value, ex *Expr) Term {
 		}
 		return Eq(as.T, bs.T) // specification equality is identity, not Go's == (NaN != NaN)
 	}
+	if pa, ok := a.(PtrV); ok {
+		if pb, ok := b.(PtrV); ok && (len(pa.Path) > 0 || len(pb.Path) > 0 || pa.Kind != PHeap || pb.Kind != PHeap) {
+			return ptrEq(pa, pb)
+		}
+	}
 	la, lb := flatten(a), flatten(b)
 	if len(la) != len(lb) {
 		e.fail("== on differently shaped values in %s", ex)
@@ -726,6 +731,28 @@ func (e *Env) call(ex *Expr) Value {
 		}
 		e.x.decls.Fun("rtype_kind", []string{SInt}, "E_uint")
 		return Scalar{App("E_uint", "rtype_kind", iv.Val)}
+	case "rsize":
+		// rsize(x): reflect.Type.Size() of a reflect.Type value (or of a Dtype), as an int; positive
+		v := e.eval(args[0])
+		if pv, ok := v.(PtrV); ok {
+			v = e.x.loadPtr(e.st, pv)
+		}
+		if sv, ok := v.(StructV); ok && len(sv.Fields) == 1 {
+			v = sv.Fields[0]
+		}
+		iv, ok := v.(IfaceV)
+		if !ok {
+			e.fail("rsize of %T", v)
+		}
+		e.x.decls.Fun("rtype_size", []string{SInt}, SInt)
+		sz := App(SInt, "rtype_size", iv.Val)
+		if id, ok := iv.Val.IsLit(); ok {
+			if t, known := e.x.rtypeUsed[int(id)]; known {
+				return Scalar{IntLit(stdSizes.Sizeof(t))}
+			}
+		}
+		e.st.assume(Lt(IntLit(0), sz))
+		return Scalar{sz}
 	case "kindlit":
 		return Scalar{e.x.decls.Const("lit_E_uint_"+fmt.Sprint(args[0].Int), "E_uint")}
 	case "unbox":
@@ -884,7 +911,7 @@ func isLitTerm(t Term) bool { _, ok := t.IsLit(); return ok }
 // lvalue resolves a selector chain to the heap location of a field (following embedded pointers).
 func (e *Env) lvalue(ex *Expr) (PtrV, bool) {
 	switch ex.Op {
-	case "id":
+	case "id", "call":
 		if p, ok := e.eval(ex).(PtrV); ok {
 			return p, true
 		}
@@ -929,4 +956,28 @@ func (e *Env) lvalue(ex *Expr) (PtrV, bool) {
 		return np, true
 	}
 	return PtrV{}, false
+}
+
+// ptrEq: equality of structured pointers (same root location and the same field path).
+func ptrEq(a, b PtrV) Term {
+	if a.Kind != b.Kind || len(a.Path) != len(b.Path) {
+		return TFalse
+	}
+	for i := range a.Path {
+		if a.Path[i] != b.Path[i] {
+			return TFalse
+		}
+	}
+	switch a.Kind {
+	case PHeap:
+		return Eq(a.Ref, b.Ref)
+	case PElem:
+		return And(Eq(a.Arr, b.Arr), Eq(a.Idx, b.Idx))
+	case PCell:
+		if a.Cell == b.Cell {
+			return TTrue
+		}
+		return TFalse
+	}
+	panic(unsupported("comparison of unknown pointers"))
 }
